@@ -282,7 +282,7 @@ TIE_TEXT = {
               "all_layers, layer_idxs, line_idxs; when a batch starts a new layer is an arbitrary oracle) and GCode.append of gscrib/printrun/gcoder.py "
               "are translated (tools/gen_gcoder.py -> Gen/GcoderSrc.lean); Props/GcoderTie.lean (7 theorems, by induction over the batches, no size bound): "
               "all_layers[idxs(k)] is the k-th line handed over, for every k, after any sequence of batches and appends - the list view the sender "
-              "prelude assumes (GcoderTie_sender_view); validated through driver mode gcodersrc.",
+              "prelude assumes (GcoderTie_sender_view); the analyzer's reading of G92 (C01's cross-oracle: an offset for exactly the linear axes the line names) is pinned; validated through driver mode gcodersrc.",
     "writers": " Translator tie: the writer list of GCodeCore (add_writer, remove_writer, write, flush, teardown, __exit__) and FileWriter "
                "(gscrib/writers/file_writer.py) are translated (tools/gen_writers.py -> Gen/WritersSrc.lean); Props/WritersTie.lean (15 theorems "
                "incl. WritersTie_run for every history): the writers model equals the translated source; validated through driver mode writerssrc.",
